@@ -172,7 +172,7 @@ class Source:
             t = dedent(t, ind)
         return Item(name or fn_name, self.rel, self._line_of(b), t)
 
-    def slice(self, fn_name, start_re, end_re, header, name, nth=None, tail=None):
+    def slice(self, fn_name, start_re, end_re, header, name, nth=None, tail=None, after_re=None):
         """R6: a contiguous statement range of fn_name's body, from the line matching start_re through the line
         matching end_re (inclusive; if that line opens a bracket the statement is taken to its matching close and `;`),
         wrapped as `header { <bytes> }`.  The bytes are copied verbatim and dedented."""
@@ -181,7 +181,13 @@ class Source:
             raise ExtractError('slice: fn %s defined %d times in %s' % (fn_name, len(ms), self.rel))
         b, o, e = fn_span(self.text, fn_name, nth or 0)
         body = self.text[o + 1:e - 1]
-        m1 = re.compile(start_re, re.M).search(body)
+        from_pos = 0
+        if after_re:        # look for the start only after this landmark (e.g. the match arm the slice lives in)
+            m0 = re.compile(after_re, re.M).search(body)
+            if not m0:
+                raise ExtractError('slice anchor lost: %s /%s/' % (self.rel, after_re))
+            from_pos = m0.end()
+        m1 = re.compile(start_re, re.M).search(body, from_pos)
         if not m1:
             raise ExtractError('slice anchor lost: %s /%s/' % (self.rel, start_re))
         s0 = body.rfind('\n', 0, m1.start()) + 1
